@@ -2563,6 +2563,32 @@ impl<'a, R: FileManager> FrontendCtx<'a, R> {
                                 Some((ts_enum_decl.clone(), bff_file_name.clone()))
                             }
                         }
+                    } else if let Expr::Member(inner) = m.obj.as_ref() {
+                        // `NS.E.P`: the member of an enum that is reached through a namespace import
+                        if let (Expr::Ident(ns), MemberProp::Ident(name)) =
+                            (inner.obj.as_ref(), &inner.prop)
+                        {
+                            let ns_addr = ModuleItemAddress {
+                                file: file.clone(),
+                                name: ns.sym.to_string(),
+                                visibility: Visibility::Local,
+                            };
+                            if let Ok(AddressedValue::StarOfFile(ns_file)) =
+                                self.get_addressed_value(&ns_addr, &anchor)
+                            {
+                                let new_addr = ModuleItemAddress {
+                                    file: ns_file,
+                                    name: name.sym.to_string(),
+                                    visibility: Visibility::Export,
+                                };
+                                if let Ok(q @ AddressedQualifiedValue::Enum(..)) =
+                                    self.get_addressed_qualified_value(&new_addr, &anchor)
+                                {
+                                    return self.member_access_qualified_value(&q, key, &anchor);
+                                }
+                            }
+                        }
+                        None
                     } else {
                         None
                     };
